@@ -229,6 +229,9 @@ impl Projector {
                     fl.push(f64::from_bits(b));
                 }
             }
+            let mut acc = Vec::new();
+            collect_objs(&s.extra, &mut acc);
+            fl.extend(acc.into_iter().map(f64::from_bits));
         }
         fl.sort_by(|a, b| a.total_cmp(b));
         fl.dedup_by(|a, b| a.to_bits() == b.to_bits());
@@ -268,6 +271,32 @@ fn min_rank(p: &Projector, inds: &[RawInd]) -> i64 {
     inds.iter().filter_map(|i| i.obj.map(|b| p.rank(Some(b)))).min().unwrap_or(NOOBJ)
 }
 
+/// replaces every {"$obj": "<bits>"} / {"$obj": "none"} by the rank of that objective value
+fn subst_ranks(p: &Projector, v: &Value) -> Value {
+    match v {
+        Value::Object(m) if m.len() == 1 && m.contains_key("$obj") => match m["$obj"].as_str() {
+            Some("none") | None => json!(NOOBJ),
+            Some(bits) => json!(p.rank(Some(bits.parse::<u64>().unwrap()))),
+        },
+        Value::Object(m) => Value::Object(m.iter().map(|(k, x)| (k.clone(), subst_ranks(p, x))).collect()),
+        Value::Array(a) => Value::Array(a.iter().map(|x| subst_ranks(p, x)).collect()),
+        other => other.clone(),
+    }
+}
+
+fn collect_objs(v: &Value, acc: &mut Vec<u64>) {
+    match v {
+        Value::Object(m) if m.len() == 1 && m.contains_key("$obj") => {
+            if let Some(b) = m["$obj"].as_str().and_then(|s| s.parse::<u64>().ok()) {
+                acc.push(b);
+            }
+        }
+        Value::Object(m) => m.values().for_each(|x| collect_objs(x, acc)),
+        Value::Array(a) => a.iter().for_each(|x| collect_objs(x, acc)),
+        _ => {}
+    }
+}
+
 pub fn emit_run(out: &mut Out, run: u64, header: &Value, o: &RunOutcome, values: &[u64]) {
     let mut p = Projector::new(o, values);
     let mut h = header.clone();
@@ -301,7 +330,8 @@ pub fn emit_run(out: &mut Out, run: u64, header: &Value, o: &RunOutcome, values:
             "best": s.best.as_ref().map(|b| p.rank(b.obj)).unwrap_or(NOOBJ),
             "minseen": minseen,
             "sd": s.scope_depth,
-            "x": s.extra,
+            "xk": header["xk"],
+            "x": subst_ranks(&p, &s.extra),
         });
         out.emit(&rec);
     }
@@ -446,6 +476,8 @@ pub fn run_spec(out: &mut Out, run: u64, spec: &Value) {
     macro_rules! go {
         ($problem:expr, $config:expr, $extra:expr) => {{
             let problem = $problem;
+            let (xk, extra) = $extra;
+            header["xk"] = json!(xk);
             match caught(|| $config) {
                 Err(p) => {
                     header["ctor"] = json!("panic");
@@ -469,7 +501,7 @@ pub fn run_spec(out: &mut Out, run: u64, spec: &Value) {
                 }
                 Ok(Ok(config)) => {
                     header["ctor"] = json!("ok");
-                    let o = observe(&config, &problem, seed, $extra, parallel);
+                    let o = observe(&config, &problem, seed, extra, parallel);
                     header["tree"] = o.tree.clone();
                     let values = problem.stats().values.lock().unwrap().clone();
                     emit_run(out, run, &header, &o, &values);
@@ -484,7 +516,7 @@ pub fn run_spec(out: &mut Out, run: u64, spec: &Value) {
         }
         "bits" => {
             let problem = BitProblem::new(prob["dim"].as_u64().unwrap() as usize);
-            go!(problem, bit_template::<BitProblem>(name, params, n), no_extra::<BitProblem>())
+            go!(problem, bit_template::<BitProblem>(name, params, n), ("-".to_string(), no_extra::<BitProblem>()))
         }
         "tsp" => {
             let problem = TspProblem::new(prob["f"].as_u64().unwrap_or(0) as u8, prob["dim"].as_u64().unwrap() as usize);
